@@ -33,6 +33,10 @@ PInt := Int.bear
 PStr := Str.bear({})
 PFloat := Float.bear
 PArr := Arr.bear
+PIntT := Int.bear({B: m{true}})
+PIntF := Int.bear({B: m{false}})
+PStrF := Str.bear({B: m{false}})
+PArrT := Arr.bear({B: m{true}})
 inf := 1.0e308 * 10.0
 nan := inf - inf
 gen := <{|i| yield i if i < 3; recur(i + 1)}>
@@ -84,6 +88,8 @@ var poolSpecs = []poolSpec{
 	{`PStr.new("s")`, "str", "desc"}, {`PStr.new("s")`, "str", "desc"}, {`PStr.new("t")`, "str", "desc"}, {`PStr.new("")`, "str", "desc zero"},
 	{"PFloat.new(1.5)", "float", "desc"}, {"PFloat.new(1.5)", "float", "desc"}, {"PFloat.new(2.5)", "float", "desc"},
 	{"PArr.new([1])", "arr", "desc"}, {"PArr.new([1])", "arr", "desc"}, {"PArr.new([])", "arr", "desc zero"},
+	// descendants whose prototype overrides B (the truth of the payload and of B disagree)
+	{"PIntT.new(0)", "int", "desc userB"}, {"PIntF.new(7)", "int", "desc userB"}, {`PStrF.new("x")`, "str", "desc userB"}, {"PArrT.new([])", "arr", "desc userB"},
 }
 
 // prototypes reachable from the const env; used by C01/C06/C12 (not by C18's laws).
